@@ -369,7 +369,7 @@ func isHasPredicate(c *Ctx, f *ssa.Function) bool {
 			var eqNext, eqMatcher bool
 			ir.Instrs(f, func(in ssa.Instruction) {
 				bo, isBo := in.(*ssa.BinOp)
-				if !isBo || bo.Op != token.EQL || !ir.HoldsAt(bo, true, r.Block()) {
+				if !isBo || bo.Op != token.EQL || !r.Holds(bo, true) {
 					return
 				}
 				for _, fld := range []string{"Next", "Matcher"} {
@@ -797,7 +797,7 @@ func fsm3(c *Ctx) {
 		}
 		// on the verdict-true edge the path must reach the append
 		for _, e := range ir.EdgesWhere(fn, verdict, true) {
-			if recAlloc != nil && !ir.Reach(e.To, nil, nil)[recAlloc.Block()] {
+			if recAlloc != nil && !ir.ReachVia(e.From, e.To, nil, nil)[recAlloc.Block()] {
 				okRec, why = false, "a successful match is not recorded"
 			}
 		}
@@ -863,11 +863,11 @@ func fsm3(c *Ctx) {
 			}
 		} else {
 			// success of a recursive call, or the terminal accept (FSM-7)
-			if !ir.HoldsAt(rec, true, r.Block()) {
+			if !r.Holds(rec, true) {
 				term := false
 				ir.Instrs(fn, func(in ssa.Instruction) {
 					if tv, ok := in.(ssa.Value); ok {
-						if b, isT := fieldOf(tv, "Terminal"); isT && b == ssa.Value(recv) && ir.HoldsAt(tv, true, r.Block()) {
+						if b, isT := fieldOf(tv, "Terminal"); isT && b == ssa.Value(recv) && r.Holds(tv, true) {
 							term = true
 						}
 					}
@@ -1370,7 +1370,7 @@ func fsm5(c *Ctx) {
 			okErr := false
 			for _, r := range ir.ReturnPoints(fn) {
 				if len(r.Results) == 1 && r.Results[0] == ssa.Value(cv) {
-					if r.Block() == cv.Block() || errIsNonNilAt(cv, r.Block()) {
+					if r.Block() == cv.Block() || errIsNonNilH(cv, r.Block(), r.Holds) {
 						okErr = true
 					}
 				}
@@ -1404,7 +1404,7 @@ func fsm5(c *Ctx) {
 			if mv, ok := c2.(*ssa.Call); ok && ir.Static(mv) == ml {
 				for _, e := range ir.EdgesWhere(parse, mv, false) {
 					good := true
-					for r := range ir.Reach(e.To, nil, nil) {
+					for r := range ir.ReachVia(e.From, e.To, nil, nil) {
 						if ir.IsReturn(r) {
 							ret := r.Instrs[len(r.Instrs)-1].(*ssa.Return)
 							if cl, isCall := ret.Results[0].(*ssa.Call); !isCall || !(ir.IsStdFunc(ir.Static(cl), "fmt", "Errorf") || ir.IsStdFunc(ir.Static(cl), "errors", "New")) {
@@ -1517,7 +1517,7 @@ func fsm6(c *Ctx) {
 	// error returned at once
 	okErr := false
 	for _, r := range ir.ReturnPoints(fn) {
-		if r.Results[0] == ssa.Value(set) && errIsNonNilAt(set, r.Block()) {
+		if r.Results[0] == ssa.Value(set) && errIsNonNilH(set, r.Block(), r.Holds) {
 			okErr = true
 		}
 	}
@@ -1528,7 +1528,7 @@ func fsm6(c *Ctx) {
 			if bo, ok := u.(*ssa.BinOp); ok && ir.IsNilConst(bo.Y) {
 				want := bo.Op == token.NEQ
 				for _, ed := range ir.EdgesWhere(fn, bo, want) {
-					for r := range ir.Reach(ed.To, nil, nil) {
+					for r := range ir.ReachVia(ed.From, ed.To, nil, nil) {
 						if r == outerHdr || r == innerHdr {
 							okErr = false
 						}
@@ -1768,7 +1768,7 @@ func fsm7(c *Ctx) {
 		isTerm := false
 		ir.Instrs(fn, func(in ssa.Instruction) {
 			if tv, ok := in.(ssa.Value); ok {
-				if b, isT := fieldOf(tv, "Terminal"); isT && b == ssa.Value(recv) && ir.HoldsAt(tv, true, r.Block()) {
+				if b, isT := fieldOf(tv, "Terminal"); isT && b == ssa.Value(recv) && r.Holds(tv, true) {
 					isTerm = true
 				}
 			}
@@ -1793,7 +1793,7 @@ func fsm7(c *Ctx) {
 			if b, isB := lc.Call.Value.(*ssa.Builtin); !isB || b.Name() != "len" {
 				return
 			}
-			if lc.Call.Args[0] == vec && ir.HoldsAt(bo, true, r.Block()) {
+			if lc.Call.Args[0] == vec && r.Holds(bo, true) {
 				good = true
 			}
 		})
